@@ -11,7 +11,7 @@ from sa.exc import CANCELLED
 from sa.flow import FnExit, Interp, TestAtom, WithEnter, WithExit, call_of
 
 CLAIM = {
-    "text": "Decides the lock, latch, refusal and teardown-order discipline behind the lifecycle guarantees: the acquired-while-holding graph of the standalone and asynchronous servers' locks (through resolved self-calls) is acyclic; every wait on the shutdown event happens with no lock held (its signaller must re-acquire the bootstrap lock first); shutdown() - blocking and asynchronous - cannot return on any normal path without having waited for the shutdown event; in both serve_forever implementations the ServerClosedError / ServerAlreadyRunning tests precede every store to server state and every teardown registration, and the asynchronous already-running test and the replacement of the event it reads are not separated by a suspension point (two concurrent callers cannot both pass); the closed latch is set-only, the servers factory is stored non-None only in the constructor and None only in server_close, server_activate refuses when it is None; in each exit stack the shutdown-event set is the first registration (runs last), the listener close is registered before the server tasks are cancelled-and-awaited, the locks taken during start-up live on the first context of the outer stack; the threads portal clears its loop under its lock before draining and refuses calls once cleared. server_activate reads the closed marker and registers its cancel scope with no suspension point in between (a server_close() in that window would neither clear what was read nor find a scope to cancel); NetworkServerThread.run sets the is-up event on every exit and hands that event to serve_forever. The standalone server_close() sets the closed latch on every exit; server_close() holds none of the locks that server_activate() holds while the listeners factory runs when it cancels the activation; futures shared through an attribute are awaited only through asyncio.shield. Round 4: NetworkServerThread.join() requests shutdown() on every path before joining the thread; _run_sync_or_else() gives the 'not running' default only after the bootstrap-lock region that looks for the running server; a cancel scope published in an attribute is withdrawn on every exit (exception, cancellation, generator close). Round 5: a function that installs the result of a block run under a published cancel scope asks cancel_called() first (finding F8, fixed); the auto-stop condition tests the counter that was just decremented; two synchronisation roles never share one primitive; TCP listeners get SO_REUSEADDR on POSIX (the flag expression is evaluated for os.name='posix'). Round 6: a coroutine scheduled through the threads portal that is cancelled hands a cancelled future to the waiting thread (shutdown() / join() return); the helper that closes the listeners gives each its own task.",
+    "text": "Decides the lock, latch, refusal and teardown-order discipline behind the lifecycle guarantees: the acquired-while-holding graph of the standalone and asynchronous servers' locks (through resolved self-calls) is acyclic; every wait on the shutdown event happens with no lock held (its signaller must re-acquire the bootstrap lock first); shutdown() - blocking and asynchronous - cannot return on any normal path without having waited for the shutdown event; in both serve_forever implementations the ServerClosedError / ServerAlreadyRunning tests precede every store to server state and every teardown registration, and the asynchronous already-running test and the replacement of the event it reads are not separated by a suspension point (two concurrent callers cannot both pass); the closed latch is set-only, the servers factory is stored non-None only in the constructor and None only in server_close, server_activate refuses when it is None; in each exit stack the shutdown-event set is the first registration (runs last), the listener close is registered before the server tasks are cancelled-and-awaited, the locks taken during start-up live on the first context of the outer stack; the threads portal clears its loop under its lock before draining and refuses calls once cleared. server_activate reads the closed marker and registers its cancel scope with no suspension point in between (a server_close() in that window would neither clear what was read nor find a scope to cancel); NetworkServerThread.run sets the is-up event on every exit and hands that event to serve_forever. The standalone server_close() sets the closed latch on every exit; server_close() holds none of the locks that server_activate() holds while the listeners factory runs when it cancels the activation; futures shared through an attribute are awaited only through asyncio.shield. Round 4: NetworkServerThread.join() requests shutdown() on every path before joining the thread; _run_sync_or_else() gives the 'not running' default only after the bootstrap-lock region that looks for the running server; a cancel scope published in an attribute is withdrawn on every exit (exception, cancellation, generator close). Round 5: a function that installs the result of a block run under a published cancel scope asks cancel_called() first (finding F8, fixed); the auto-stop condition tests the counter that was just decremented; two synchronisation roles never share one primitive; TCP listeners get SO_REUSEADDR on POSIX (the flag expression is evaluated for os.name='posix'). Round 6: a coroutine scheduled through the threads portal that is cancelled hands a cancelled future to the waiting thread (shutdown() / join() return); the helper that closes the listeners gives each its own task. Round 7: the exit stack handed to service_init() is one that was just entered on the server's own exit stack.",
     "note": "Trusted: ExitStack runs callbacks LIFO on every exit; threading/asyncio lock and event semantics. Not decided: absence of deadlock over all interleavings (needs the scheduler), timing.",
     "technique": "lock-held typestate with interprocedural acquired-while-holding graph and cycle search, must-pass-through and atomic-section analyses, write-once / who-writes queries, registration-order checks on the ast program database",
 }
